@@ -68,7 +68,8 @@ def value_to_coq(v) -> str:
 
 
 def rows_to_coq(rows) -> str:
-    return "[" + ";\n   ".join("[" + "; ".join(value_to_coq(v) for v in r) + "]" for r in rows) + "]"
+    import common
+    return "[" + ";\n   ".join("[" + "; ".join(value_to_coq(common.dec_value(v)) for v in r) + "]" for r in rows) + "]"
 
 
 def frame_to_coq(names, rows) -> str:
